@@ -232,14 +232,58 @@ class Meta:
             kwargs.update(extra)
         if self.set_name is not None:
             kwargs['set_name'] = self.set_name
+        if self.routes:
+            # flavours of the same values: tuples for lists, numpy scalars for single numbers
+            table = {k: t for k, _, t in schema.S[kind]}
+            for k in list(kwargs):
+                if k in table and k not in forced:
+                    kwargs[k] = self._flavour_routed(kwargs[k], table[k])
+            later = [(k, (self._flavour(v, table.get(k, '')), u)) for k, (v, u) in later]
         h = self.spec.add(self.lfi, kind, nm, **kwargs)
         self.by_kind.setdefault(kind, []).append(h)
         for kw, (v, u) in later:
             an = schema.ITEM_ATTR.get((kind, kw), kw)
+            if rng.random() < 0.3:
+                # the set_attributes() route: plain value, or value and units together as a dict / AttrSetup
+                lit = v if u is None else {rng.choice(['$dict', '$setup']): {'value': v, 'units': u}}
+                self.spec.emit({'op': 'set_attrs', 'h': h, 'kwargs': {an: lit}})
+                continue
             self.spec.emit({'op': 'set', 'h': h, 'attr': an, 'kw': kw, 'part': 'value', 'v': v})
             if u is not None:
                 self.spec.emit({'op': 'set', 'h': h, 'attr': an, 'kw': kw, 'part': 'units', 'v': u})
         return h
+
+    def _flavour(self, v, t):
+        rng = self.rng
+        base = t.partition(':')[0]
+        if isinstance(v, list) and v and not any(isinstance(x, list) for x in v) and rng.random() < 0.1:
+            return {'$tuple': v}
+        if base in ('num', 'int') and isinstance(v, (int, float)) and not isinstance(v, bool) and rng.random() < 0.1:
+            import numpy as np
+            if isinstance(v, int):
+                dt = 'uint8' if 0 <= v <= 255 and rng.random() < 0.5 else ('int32' if abs(v) < 2 ** 31 and rng.random() < 0.5 else 'int64')
+                if abs(v) >= 2 ** 63:
+                    return v
+                return {'$npscalar': [dt, v]}
+            if v != v or v in (float('inf'), float('-inf')):
+                return {'$npscalar': ['float64', v]}
+            if rng.random() < 0.5 and abs(v) < 3e38:
+                return {'$npscalar': ['float32', float(np.float32(v))]}
+            return {'$npscalar': ['float64', v]}
+        return v
+
+    def _flavour_routed(self, lit, t):
+        if isinstance(lit, dict) and ('$dict' in lit or '$setup' in lit):
+            if '$share' in lit:
+                return lit
+            tag = '$dict' if '$dict' in lit else '$setup'
+            inner = dict(lit[tag])
+            if 'value' in inner:
+                inner['value'] = self._flavour(inner['value'], t)
+            return dict(lit, **{tag: inner})
+        if isinstance(lit, dict):
+            return lit
+        return self._flavour(lit, t)
 
     def _name(self, kind):
         used = self.names.setdefault(kind, [])
